@@ -2,13 +2,16 @@
 # For every seeded change: apply it to /repo, run every check's quick tier, record which checks raise an alarm, undo it.
 # Writes seeded/RESULTS.tsv (seed <TAB> property <TAB> caught-by-own-check <TAB> checks that alarmed <TAB> of which with a concrete failing input).
 cd "$(dirname "$0")/.."
-ids=$(python3 -c "import json; print(' '.join(c['property_id'] for c in json.load(open('MANIFEST.json'))['checks']))")
+# usage: tools/seed_matrix.sh [own|all]   (own: only the seed's own property check; all: every check)
+mode=${1:-own}
+allids=$(python3 -c "import json; print(' '.join(c['property_id'] for c in json.load(open('MANIFEST.json'))['checks']))")
 out=seeded/RESULTS.tsv
 echo -e "seed\tproperty\town_check\talarmed\twith_failing_input" > $out
 for d in seeded/C*_*; do
   s=$(basename $d); prop=${s%_*}
   git -C /repo checkout -q -- . ; git -C /repo apply "$PWD/$d/patch.diff" || { echo -e "$s\t$prop\tPATCH-DOES-NOT-APPLY\t\t" >> $out; continue; }
   alarmed=""; concrete=""
+  ids=$allids; [ "$mode" = "own" ] && ids=$prop
   for id in $ids; do
     o=$(VERIF_SEED=0 ./check $id 2>&1 | grep "VIOLATION")
     if [ -n "$o" ]; then
